@@ -226,8 +226,10 @@ def run(repo, rep):
         if n_y == 0:
             raise AnalysisError('%s: no yield found' % f.loc())
         # S1: width
+        from ..sym import inline_pure_calls
         k_want = k_pdv + 1   # + one control header byte (checked against pack('b') in encode below)
         for w, conds in wterms:
+            w = inline_pure_calls(w, repo, 'dimsemessages')
             a = aff_of_term(w)
             nolimit = any(c_ in ('-' + mp, '+not ' + mp, '+%s == 0' % mp) for c_ in conds)
             if nolimit:
